@@ -114,6 +114,8 @@ pub fn decode_sitefree_case(tape: &[u8]) -> Value {
     let mode = t.weighted(&[2, 2, 1]);
     let refkind = t.weighted(&[6, 1, 1, 1]);
     let odd = t.weighted(&[6, 1, 1, 1, 1]);
+    // file names without a directory, without a final component, outside ASCII
+    let file = *t.pick(&["/app/src/gen.js", "/app/src/gen.js", "/app/src/gen.js", "gen.js", "", "/", ".", "..", "/app/src/..", "/app/src/", "/app/caf\u{e9}/\u{540d}.js"]);
     let mut cfg = gen_cfg(&mut t, &CfgOpts { fixed_prefix: true, rich: mode == 2 });
     if mode == 0 {
         // nothing that the generated program uses is enabled: operators off, only never-used method names configured
@@ -166,7 +168,7 @@ pub fn decode_sitefree_case(tape: &[u8]) -> Value {
         }
         _ => {}
     }
-    json!({"src": src, "cfg": cfgj, "file": "/app/src/gen.js", "tags": tags, "mode": mode})
+    json!({"src": src, "cfg": cfgj, "file": file, "tags": tags, "mode": mode})
 }
 
 impl Check for C12 {
@@ -737,6 +739,8 @@ impl Check for C13 {
             "new RegExp();", "new RegExp;", "require();", "new RegExp(...a);", "require(...a);", "RegExp();", "new RegExp(a, 'a flags literal longer than ten');",
             "String.prototype.concat.call();", "String.prototype.concat.apply();", "x?.();", "a?.concat?.()?.trim?.();", "a.concat.call(...b);", "`${a}`.concat();",
             "({}).substring.apply(a, [,]);", "aloneMethod();", "aloneMethod(...a);", "label: { break label; }", "delete a?.b.c;", "new.target;", "import.meta;",
+            // escapes that are only legal in tagged templates (no cooked value), with and without substitutions
+            "String.raw`C:\\users\\bin`;", "h`\\xerox ${a} \\u{110000}`;", "h`\\unicode and a text that is longer than ten`;", "a.concat(h`\\01`);",
         ];
         let src = if t.chance(70) {
             let sn = *t.pick(SNIPPETS);
